@@ -27,6 +27,9 @@ import (
 var (
 	repoDir  = envOr("VERIF_REPO", "/repo")
 	verifDir = envOr("VERIF_DIR", "/verif")
+	// evidenceDir can be redirected for trial runs against scratch trees, so that the committed evidence
+	// always stems from runs against /repo itself
+	evidenceDir = envOr("VERIF_EVIDENCE_DIR", filepath.Join(envOr("VERIF_DIR", "/verif"), "evidence"))
 )
 
 func envOr(k, d string) string {
@@ -100,7 +103,7 @@ func cmdCheck(args []string) int {
 	}
 	seed, _ := strconv.ParseInt(os.Getenv("VERIF_SEED"), 10, 64)
 	start := time.Now()
-	evPath := filepath.Join(verifDir, "evidence", chk.ID+".json")
+	evPath := filepath.Join(evidenceDir, chk.ID+".json")
 	os.Remove(evPath)
 
 	cfgs := []config{primary}
@@ -210,7 +213,7 @@ func cmdCheck(args []string) int {
 				fmt.Printf("KNOWN-FINDING: property=%s %s [%s @ %s]\n", chk.ID, f.Text, m.Key, m.Pos)
 			} else {
 				violations++
-				rp := filepath.Join(verifDir, "evidence", "violations", chk.ID+"-"+report.KeyHash(m.Key)+".json")
+				rp := filepath.Join(evidenceDir, "violations", chk.ID+"-"+report.KeyHash(m.Key)+".json")
 				report.WriteJSON(rp, map[string]any{"property": chk.ID, "key": m.Key, "rule": m.Rule, "pos": m.Pos, "detail": m.Detail, "config": m.Config,
 					"replay": "verifcheck replay " + rp})
 				vioLines = append(vioLines, fmt.Sprintf("VIOLATION property=%s replay=%s", chk.ID, rp))
